@@ -1,58 +1,110 @@
 use crate::common::{Args, Out};
+#[cfg(feature = "d_calendar")]
 pub mod calendar;
+#[cfg(feature = "d_conn_enum")]
 pub mod conn_enum;
+#[cfg(feature = "d_cookies")]
 pub mod cookies;
+#[cfg(feature = "d_exchange")]
 pub mod exchange;
+#[cfg(feature = "d_framing")]
 pub mod framing;
+#[cfg(feature = "d_head")]
 pub mod head;
+#[cfg(feature = "d_headers")]
 pub mod headers;
+#[cfg(feature = "d_logfiles")]
 pub mod logfiles;
+#[cfg(feature = "d_logger")]
 pub mod logger;
+#[cfg(feature = "d_logjson")]
 pub mod logjson;
+#[cfg(feature = "d_response")]
 pub mod response;
+#[cfg(feature = "d_permit_race")]
+pub mod permit_race;
+#[cfg(feature = "d_server")]
 pub mod server;
+#[cfg(feature = "d_sse")]
 pub mod sse;
 
 pub fn run(args: &Args, out: Out) {
     match args.driver.as_str() {
+        #[cfg(feature = "d_conn_enum")]
         "conn-enum" => conn_enum::run(args, out),
+        #[cfg(feature = "d_head")]
         "head-gen" => head::run_gen(args, out),
+        #[cfg(feature = "d_head")]
         "head-splits" => head::run_splits(args, out),
+        #[cfg(feature = "d_head")]
         "req-splits" => head::run_req_splits(args, out),
+        #[cfg(feature = "d_head")]
         "head-tcp" => head::run_tcp(args, out),
+        #[cfg(feature = "d_response")]
         "resp-gen" => response::run_gen(args, out),
+        #[cfg(feature = "d_response")]
         "chunk-lens" => response::run_chunk_lens(args, out),
+        #[cfg(feature = "d_response")]
         "chunk-gen" => response::run_chunk_gen(args, out),
+        #[cfg(feature = "d_response")]
         "resp-faults" => response::run_faults(args, out),
+        #[cfg(feature = "d_response")]
         "status-all" => response::run_status(args, out),
+        #[cfg(feature = "d_response")]
         "builder-gen" => response::run_builder(args, out),
+        #[cfg(feature = "d_exchange")]
         "exchange-gen" => exchange::run_gen(args, out),
+        #[cfg(feature = "d_exchange")]
         "upload-diskfull" => exchange::run_diskfull(args, out),
+        #[cfg(feature = "d_exchange")]
         "diskfull-child" => exchange::run_diskfull_child(args, out),
+        #[cfg(feature = "d_exchange")]
         "recv-body" => exchange::run_recv_body(args, out),
+        #[cfg(feature = "d_exchange")]
         "limits" => exchange::run_limits(args, out),
-        "permit-race" => server::run_permit_race(args, out),
+        #[cfg(feature = "d_permit_race")]
+        "permit-race" => permit_race::run_permit_race(args, out),
+        #[cfg(feature = "d_server")]
         "tokens-enum" => server::run_tokens(args, out),
+        #[cfg(feature = "d_server")]
         "server-stress" => server::run_stress(args, out),
+        #[cfg(feature = "d_sse")]
         "sse-replay" => sse::run_replay(args, out),
+        #[cfg(feature = "d_sse")]
         "sse-content" => sse::run_content(args, out),
+        #[cfg(feature = "d_sse")]
         "sse-threads" => sse::run_threads(args, out),
+        #[cfg(feature = "d_calendar")]
         "date-sweep" => calendar::run_sweep(args, out),
+        #[cfg(feature = "d_logjson")]
         "json-scalars" => logjson::run_scalars(args, out),
+        #[cfg(feature = "d_logjson")]
         "json-lines" => logjson::run_lines(args, out),
+        #[cfg(feature = "d_logger")]
         "logger-threads" => logger::run_threads(args, out),
+        #[cfg(feature = "d_logfiles")]
         "logwriter-run" => logfiles::run_writer(args, out),
+        #[cfg(feature = "d_logfiles")]
         "logwriter-crash" => logfiles::run_crash(args, out),
+        #[cfg(feature = "d_logfiles")]
         "logwriter-child" => logfiles::run_child(args),
+        #[cfg(feature = "d_logfiles")]
         "fileset-ops" => logfiles::run_fileset(args, out),
+        #[cfg(feature = "d_cookies")]
         "cookie-set" => cookies::run_set(args, out),
+        #[cfg(feature = "d_cookies")]
         "cookie-req" => cookies::run_req(args, out),
+        #[cfg(feature = "d_headers")]
         "headers-enum" => headers::run_enum(args, out),
+        #[cfg(feature = "d_headers")]
         "ascii-ctors" => headers::run_ctors(args, out),
+        #[cfg(feature = "d_framing")]
         "framing-gen" => framing::run_gen(args, out),
+        #[cfg(feature = "d_framing")]
         "pipeline-gen" => framing::run_pipeline(args, out),
         other => {
-            eprintln!("unknown driver {other}");
+            // (also reached for a driver whose module was left out of this build, see Cargo.toml [features])
+            eprintln!("unknown driver {other} (or its module is not part of this build)");
             std::process::exit(2)
         }
     }
